@@ -39,6 +39,7 @@ func main() {
 	noEvidence := flag.Bool("no-evidence", false, "do not write evidence file")
 	overlay := flag.String("overlay", "", "repo-relative-file=replacement-file: verify with this file's content replaced (self-test only)")
 	noSelftest := flag.Bool("no-selftest", false, "thorough tier: skip the must-fail mutant self-test")
+	noRetry := flag.Bool("no-retry", false, "skip the second solver pass (self-test runs: an undecided obligation already counts as detected)")
 	flag.Parse()
 	if *overlay != "" {
 		kv := strings.SplitN(*overlay, "=", 2)
@@ -105,7 +106,7 @@ func main() {
 	for _, name := range sortedKeys(eng.contracts) {
 		ct := eng.contracts[name]
 		if *only != "" {
-			if ct.Name == *only {
+			if ct.Name == *only || strings.HasSuffix(ct.Name, "."+*only) {
 				cts = append(cts, ct)
 			}
 			continue
@@ -190,7 +191,11 @@ func main() {
 			retry = append(retry, ob)
 		}
 	}
-	if len(retry) > 0 && len(retry) <= 40 {
+	if *noRetry {
+		for _, ob := range retry {
+			ob.Result = "timeout"
+		}
+	} else if len(retry) > 0 && len(retry) <= 40 {
 		solve(retry, eng.timeout*4, 5)
 	} else {
 		for _, ob := range retry {
@@ -638,7 +643,12 @@ func runSelftest(prop, repo, verif string) map[string]interface{} {
 		}
 		mf := filepath.Join(tmp, "m.go")
 		os.WriteFile(mf, out, 0o644)
-		c2 := exec.Command(self, "-prop", prop, "-repo", repo, "-verif", verif, "-no-evidence", "-overlay", file+"="+mf)
+		args := []string{"-prop", prop, "-repo", repo, "-verif", verif, "-no-evidence", "-no-retry", "-overlay", file + "=" + mf}
+		if i := strings.Index(expect, "#"); i > 0 {
+			// the mutant names the function whose obligation must fail: verify only that one
+			args = append(args, "-func", expect[:i])
+		}
+		c2 := exec.Command(self, args...)
 		res, _ := c2.CombinedOutput()
 		run++
 		hit := false
